@@ -1,0 +1,13 @@
+//go:build !verif
+
+package regexp2
+
+// Stubs of the verification hooks; they compile to nothing.
+
+func verifStep(r *Runner)                                                  {}
+func verifScanStart(r *Runner)                                             {}
+func verifGrow(r *Runner, oldCap, newCap int)                              {}
+func verifPoint(point string, obj any, a, b int)                           {}
+func verifIsNaive(re *Regexp) bool                                         { return false }
+func verifWrapFind(r *Runner, f func(r *Runner) bool) func(r *Runner) bool { return f }
+func verifMinLen(r *Runner, n int) int                                     { return n }
